@@ -192,6 +192,23 @@ class Frames:
                         return ("fill0", self.col(obj, name))
                 raise AnalysisError(f"multi-column assignment {ir.show(key, maxdepth=3)} := {ir.show(val, maxdepth=3)} not resolved")
             raise AnalysisError(f"assignment with computed key {ir.show(key, maxdepth=3)}")
+        if k == "setattr" and fr[2] in ("loc",) and fr[3][0] == "setitem" and fr[3][1] == ("attr", fr[1], "loc"):
+            # frame.loc[mask, column] = value: the column is `value` on the rows of the mask and what it was on the others
+            obj, key, val = fr[1], fr[3][2], fr[3][3]
+            if key[0] == "tuple" and len(key[1]) == 2:
+                mask, ck = key[1]
+                names = list(ck[1]) if ck[0] == "list" else [ck]
+                hit = False
+                for x in names:
+                    if x[0] not in ("const", "fstr"):
+                        raise AnalysisError(f".loc assignment to computed columns {ir.show(ck, maxdepth=3)} not resolved")
+                    hit = hit or match(x, name)
+                if not hit:
+                    return self.col(obj, name)
+                if mask[0] == "slice":
+                    return self.value(val, obj)
+                return ("where", self.value(mask, obj), self.value(val, obj), self.col(obj, name))
+            raise AnalysisError(f".loc assignment {ir.show(key, maxdepth=3)} not resolved")
         if k == "phi":
             a, b = self.col(fr[2], name), self.col(fr[3], name)
             return a if a == b else ("phi", fr[1], a, b)
@@ -199,7 +216,18 @@ class Frames:
             body = fr[4]
             # column assigned in a generic iteration?
             t = body
-            while t[0] == "setitem":
+            while t[0] in ("setitem", "setattr"):
+                if t[0] == "setattr":
+                    if t[2] == "loc" and t[3][0] == "setitem" and t[3][2][0] == "tuple" and len(t[3][2][1]) == 2:
+                        ck = t[3][2][1][1]
+                        try:
+                            hit = ck[0] in ("const", "fstr") and match(ck, name)
+                        except AnalysisError:
+                            hit = _unify_elem(ck, name)
+                        if hit:
+                            return ("where", self.value(t[3][2][1][0], t[1]), self.value(t[3][3], t[1]), self.col(t[1], name))
+                    t = t[1]
+                    continue
                 try:
                     hit = match(t[2], name)
                 except AnalysisError:
@@ -607,3 +635,26 @@ def vector_value(F, t):
         if _is_groupby(g_) and c_[0] in ("const", "fstr"):
             return ("gsum", g_[1][1], F.col(g_[1][1], c_), g_[2][0])
     raise AnalysisError(f"returned vector {ir.show(t, maxdepth=4)} is neither a table column nor a group sum")
+
+
+def where_form(v):
+    """an element-wise selection in one normal form: (condition, value where it holds, value where it does not), whatever it was written as -
+    numpy.where(c, a, b); s.where(c, b) [= where(c, s, b)]; s.mask(c, a) [= where(c, a, s)]; frame.loc[c, col] = a  [('where', c, a, old)];
+    a negated condition swaps the branches. None when v is not a selection."""
+    if not isinstance(v, tuple) or not v:
+        return None
+    out = None
+    if v[0] == "where" and len(v) == 4:
+        out = (v[1], v[2], v[3])
+    elif v[0] == "call" and v[1][0] == "global" and v[1][1] in ("numpy.where",) and len(v[2]) == 3:
+        out = (v[2][0], v[2][1], v[2][2])
+    elif v[0] == "call" and v[1][0] == "attr" and v[1][2] in ("where", "mask") and 1 <= len(v[2]) <= 2:
+        other = v[2][1] if len(v[2]) == 2 else dict(v[3]).get("other", ("const", float("nan")))
+        out = (v[2][0], v[1][1], other) if v[1][2] == "where" else (v[2][0], other, v[1][1])
+    if out is None:
+        return None
+    c, a, b = out
+    while c[0] == "un" and c[1] in ("~", "not"):
+        c, a, b = c[2], b, a
+    lit = lambda x: ("lit", x[1]) if x[0] == "const" else x  # noqa: E731
+    return c, lit(a), lit(b)
